@@ -149,6 +149,7 @@ type c17Summary struct {
 	Leaf              int            `json:"leaf"`
 	DoIfOrder         int            `json:"doif_order_runs"`        // executions of the family "do_if reads a field the plugin rewrites"
 	ManyMasks         int            `json:"many_masks_runs"`        // executions of the family "the matching mask sits behind K silent masks"
+	NumKeys           int            `json:"numeric_key_runs"`       // executions of the family "all-digit path elements over arrays / objects / nothing"
 	Stress            int            `json:"stress_runs"`            // executions of Do in the concurrent family
 	RuleStress        int            `json:"rule_stress_runs"`       // of them: masks with match_rules, every instance fed its own values
 	RuleStressOverlap int            `json:"rule_stress_overlapped"` // of them: Do started while another instance was inside Do
@@ -564,6 +565,7 @@ func TestVerifC17(t *testing.T) {
 	c17RunEvents(w, sum, rng, thorough, replay)
 	c17RunDoIfOrder(w, sum, replay)
 	c17RunManyMasks(w, sum, replay)
+	c17RunNumericKeys(w, sum, replay)
 	c17RunStress(w, sum, rng, thorough, replay)
 
 	w.closeCur()
@@ -1773,6 +1775,149 @@ func c17RunManyMasks(w *c17Writer, sum *c17Summary, replay map[string]bool) {
 					}
 				}
 				sum.ManyMasks++
+				w.put(&rec, info)
+			}
+		}
+	}
+}
+
+// ---------------------------------------------------------------- all-digit path elements
+
+// Path elements of process / ignore lists that consist of digits only x the addressed node being an array element at
+// that index, an OBJECT member with that numeric key, or absent -- for the plugin's global ignore / process lists and
+// for mask-specific lists (one list per configuration).  A path element addresses object members and array elements
+// alike (specs/Mask.tla Listed, MaskPath.tla).  Real Start / Do, ordinary "E" records.
+func c17RunNumericKeys(w *c17Writer, sum *c17Summary, replay map[string]bool) {
+	mAst, mRep := c17Mode{name: "mask0"}, c17Mode{name: "replace", word: "XY"}
+	P := func(s ...string) [][]string {
+		var r [][]string
+		for _, x := range s {
+			r = append(r, strings.Split(x, "."))
+		}
+		return r
+	}
+	mk := func(re string, g []int, md c17Mode) Mask {
+		return Mask{Re: re, Groups: g, MaxCount: md.mc, ReplaceWord: md.word, CutValues: md.cut}
+	}
+	pathSets := [][]string{
+		{"s.1"},
+		{"u.2.auth"},
+		{"s.1", "u.2.auth", "q.3"},
+		{"u.2", "m"}, // (non-canonical numbers such as "01" are left out: whether they are an index is not stated)
+		{"s.0", "s.2", "u.1001"},
+	}
+	docs := []string{
+		// the numeric element is an OBJECT key
+		`{"s":{"1":"ab","x":"ba","01":"ab","0":"aa"},"u":{"2":{"auth":"aab","o":"ab"},"1001":"ab","k":"ab"},"m":"ab"}`,
+		// ... an ARRAY index
+		`{"s":["ba","ab","aa"],"u":["ab","ab",{"auth":"aab","o":"ab"}],"m":"ab"}`,
+		// ... absent / a leaf / deeper containers
+		`{"s":{"2":"ab"},"u":{"2":"ab"},"q":{"3":["ab",{"1":"ab"}]},"m":"ab"}`,
+		// an array element that is an object with a numeric key, an empty array
+		`{"s":[["ab"],{"1":"ab","z":"ba"}],"u":[],"q":["a","b","a",{"3":"ab"}],"m":"ba"}`,
+	}
+	type layout struct {
+		name string
+		kind string // gign | gproc | mproc | mign | mproc+plain | plain+mign
+	}
+	layouts := []layout{{"global ignore_fields", "gign"}, {"global process_fields", "gproc"},
+		{"mask-specific process_fields", "mproc"}, {"mask-specific ignore_fields", "mign"},
+		{"mask-specific process_fields, then a mask without lists", "mproc+plain"},
+		{"a mask without lists, then mask-specific ignore_fields", "plain+mign"}}
+	root := insaneJSON.Spawn()
+	defer insaneJSON.Release(root)
+	ci := -1
+	for _, lo := range layouts {
+		for _, ps := range pathSets {
+			ci++
+			if replay != nil {
+				any := false
+				for di := range docs {
+					any = any || replay[fmt.Sprintf("N|%d|%d", ci, di)]
+				}
+				if !any {
+					continue
+				}
+			}
+			a := c17StressMask{mask: mk(`(a)`, []int{1}, mAst), cond: []c17Cond{}}
+			b := c17StressMask{mask: mk(`(b)`, []int{1}, mRep), cond: []c17Cond{}}
+			conf := &Config{MaskAppliedField: "ap", MaskAppliedValue: "1"}
+			var sm []c17StressMask
+			switch lo.kind {
+			case "gign":
+				conf.IgnoreFields = ps
+				sm = []c17StressMask{a}
+			case "gproc":
+				conf.ProcessFields = ps
+				sm = []c17StressMask{a}
+			case "mproc":
+				a.mask.ProcessFields, a.proc = ps, P(ps...)
+				sm = []c17StressMask{a}
+			case "mign":
+				a.mask.IgnoreFields, a.ign = ps, P(ps...)
+				sm = []c17StressMask{a}
+			case "mproc+plain":
+				a.mask.ProcessFields, a.proc = ps, P(ps...)
+				sm = []c17StressMask{a, b}
+			case "plain+mign":
+				b.mask.IgnoreFields, b.ign = ps, P(ps...)
+				sm = []c17StressMask{a, b}
+			}
+			for i := range sm {
+				m := sm[i].mask
+				m.AppliedField, m.AppliedValue = "am"+strconv.Itoa(i), "1"
+				m.MetricName = "c17_mask_metric_" + strconv.Itoa(i)
+				conf.Masks = append(conf.Masks, m)
+			}
+			confStr := fmt.Sprintf("%s %v", lo.name, ps)
+			sum.Configs++
+			p, rej := c17Start(conf)
+			if p == nil {
+				sum.Skipped++
+				sum.SkipWhy[rej]++
+				continue
+			}
+			descs := c17StressDescs(p, sm)
+			for di, doc := range docs {
+				key := fmt.Sprintf("N|%d|%d", ci, di)
+				if replay != nil && !replay[key] {
+					continue
+				}
+				if err := root.DecodeString(doc); err != nil {
+					panic(err)
+				}
+				rec := c17Event{K: "E", GProc: [][]string{}, GIgn: [][]string{}, Masks: descs, AF: "ap", IM: c17Seq(len(descs)),
+					Before: c17StressBefore(p, sm, root), After: []c17FLeaf{}, MMet: []int{}, PB: []int{}}
+				if conf.ProcessFields != nil {
+					rec.GProc = P(ps...)
+				}
+				if conf.IgnoreFields != nil {
+					rec.GIgn = P(ps...)
+				}
+				info := c17Info{Key: key, Src: doc, Conf: confStr, Fam: "numeric-keys"}
+				m0 := c17Met(p)
+				mm0 := make([]int, len(p.config.Masks))
+				for i := range mm0 {
+					mm0[i] = c17MaskMet(p, i)
+				}
+				pmsg, panicked := c17Do(p, &pipeline.Event{Root: root})
+				if panicked {
+					rec.Res, info.Pmsg = "panic", pmsg
+					rec.PC, rec.PB = c17PanicClass(pmsg)
+					sum.Panics++
+					p, _ = c17Start(conf)
+				} else {
+					rec.Res = "ok"
+					rec.After = c17Flatten(root.Node, []string{}, nil)
+					for li := range rec.After {
+						rec.After[li].MI = []c17MI{}
+					}
+					rec.Met = c17Met(p) - m0
+					for i := range mm0 {
+						rec.MMet = append(rec.MMet, c17MaskMet(p, i)-mm0[i])
+					}
+				}
+				sum.NumKeys++
 				w.put(&rec, info)
 			}
 		}
